@@ -36,7 +36,7 @@ ASSUMPTIONS = ["absence of deadlock is shown for the simulated semantics (every 
                "roots of bcast and non-roots of gather/reduce leave early) and the explored configurations only",
                "schedule enumeration is exhaustive only when reported so in the labels"]
 TIMEOUT = {"quick": 3600, "thorough": 8 * 3600}
-BUDGET = {"quick": 60, "thorough": 1500}
+BUDGET = {"quick": 60, "thorough": 600}
 
 
 def init_worker(tier):
@@ -477,11 +477,16 @@ SUBS = {"layouts": Sub(layout_pred, strategy=layout_cases), "plotrank": Sub(plot
 
 def jobs(tier):
     layout_pred.__defaults__[0][0] = BUDGET[tier]
-    n1, n2, n3, n4, n5 = (60, 50, 6, 2, 2) if tier == "quick" else (1500, 1200, 60, 20, 12)
-    return ([{"sub": "layouts", "n": n1, "shard": i, "budget": BUDGET[tier]} for i in range(6)] +
-            [{"sub": "plotrank", "n": n2, "shard": i} for i in range(3)] +
-            [{"sub": "saving", "n": n3, "shard": i} for i in range(6)] +
-            [{"sub": "driver", "n": n4, "shard": i} for i in range(2)] +
+    if tier == "quick":
+        n1, n2, n3, n4, n5 = 60, 50, 6, 2, 2
+        k1, k2, k3, k4 = 6, 3, 6, 2
+    else:
+        n1, n2, n3, n4, n5 = 600, 1500, 60, 24, 12
+        k1, k2, k3, k4 = 16, 6, 8, 4
+    return ([{"sub": "layouts", "n": n1, "shard": i, "budget": BUDGET[tier]} for i in range(k1)] +
+            [{"sub": "plotrank", "n": n2, "shard": i} for i in range(k2)] +
+            [{"sub": "saving", "n": n3, "shard": i} for i in range(k3)] +
+            [{"sub": "driver", "n": n4, "shard": i} for i in range(k4)] +
             [{"sub": "hashseed", "n": n5, "shard": i} for i in range(1)])
 
 
